@@ -1,1 +1,117 @@
 // verif hook module for src/systematic_constants.rs (compiled only with --cfg cberner_raptorq_verif)
+#![allow(dead_code, unused_imports)]
+use super::*;
+
+pub fn p1_row(idx: usize) -> (u32, u32) {
+    P1_TABLE[idx]
+}
+
+#[cfg(kani)]
+pub(crate) mod kani_tab {
+    use super::super::*;
+    use crate::verif::rfc::is_prime;
+    use crate::verif::rfc_tables::*;
+
+    // C15: Table 2 and the P1 table equal the pinned RFC transcription (symbolic row: every row)
+    #[kani::proof]
+    pub(crate) fn tables_match_pin() {
+        let idx: usize = kani::any();
+        kani::assume(idx < 477);
+        assert!(SYSTEMATIC_INDICES_AND_PARAMETERS[idx] == PIN_TABLE2[idx], "C15 Table 2 row == RFC 5.6");
+        assert!(P1_TABLE[idx] == PIN_P1[idx], "C15 P1 row == pinned");
+        assert!(MAX_SOURCE_SYMBOLS_PER_BLOCK == 56403, "C15 K'_max == 56403");
+        kani::cover!(idx == 476, "reach");
+    }
+
+    // C15: structural facts of every row, derived by computation (independent of the pin).
+    // Concrete loops over the constant table: CBMC evaluates them completely.
+    fn row_facts(lo: usize, hi: usize) {
+        let mut idx = lo;
+        while idx < hi {
+            let (kp, _j, s, h, w) = SYSTEMATIC_INDICES_AND_PARAMETERS[idx];
+            let (kp1, p1) = P1_TABLE[idx];
+            assert!(kp1 == kp, "C15 P1 table keyed by the same K'");
+            if idx > 0 {
+                assert!(SYSTEMATIC_INDICES_AND_PARAMETERS[idx - 1].0 < kp, "C15 K' strictly increasing");
+            }
+            assert!(is_prime(s), "C15 S prime");
+            assert!(is_prime(w), "C15 W prime");
+            assert!(w > s && w - s >= 1, "C15 B = W - S >= 1");
+            let l = kp + s + h;
+            assert!(l < 65536, "C15 L < 65536");
+            assert!(l > w, "C15 P = L - W > 0");
+            let p = l - w;
+            assert!(h >= 2 && p >= h, "C15 P >= H >= 2");
+            assert!(is_prime(p1) && p1 >= p, "C15 P1 prime >= P");
+            let mut n = p;
+            while n < p1 {
+                assert!(!is_prime(n), "C15 P1 is the smallest prime >= P");
+                n += 1;
+            }
+            assert!(p1 - p <= 13, "C15 P1 - P <= 13 (bound used for Enc's while loops)");
+            assert!(w >= 17 && p1 >= 11, "C15 W >= 17, P1 >= 11");
+            idx += 1;
+        }
+    }
+    #[kani::proof]
+    #[kani::unwind(245)]
+    pub(crate) fn row_facts_0() {
+        row_facts(0, 120);
+    }
+    #[kani::proof]
+    #[kani::unwind(245)]
+    pub(crate) fn row_facts_1() {
+        row_facts(120, 240);
+    }
+    #[kani::proof]
+    #[kani::unwind(245)]
+    pub(crate) fn row_facts_2() {
+        row_facts(240, 360);
+    }
+    #[kani::proof]
+    #[kani::unwind(245)]
+    pub(crate) fn row_facts_3() {
+        row_facts(360, 477);
+        assert!(SYSTEMATIC_INDICES_AND_PARAMETERS[476].0 == MAX_SOURCE_SYMBOLS_PER_BLOCK, "C15 last K' == K'_max");
+    }
+
+    // C15: for every K <= 56403 the look-up functions return the row of the smallest K' >= K
+    #[kani::proof]
+    #[kani::unwind(479)]
+    pub(crate) fn lookups_return_least_row() {
+        let k: u32 = kani::any();
+        let idx: usize = kani::any();
+        kani::assume(k <= 56403);
+        kani::assume(idx < 477);
+        kani::assume(PIN_TABLE2[idx].0 >= k);
+        kani::assume(idx == 0 || PIN_TABLE2[idx - 1].0 < k);
+        let (kp, j, s, h, w) = PIN_TABLE2[idx];
+        assert!(extended_source_block_symbols(k) == kp, "C15 K' is the smallest table size >= K");
+        assert!(systematic_index(k) == j, "C15 J(K')");
+        assert!(num_ldpc_symbols(k) == s, "C15 S(K')");
+        assert!(num_hdpc_symbols(k) == h, "C15 H(K')");
+        assert!(num_lt_symbols(k) == w, "C15 W(K')");
+        assert!(num_intermediate_symbols(k) == kp + s + h, "C15 L = K'+S+H");
+        assert!(num_pi_symbols(k) == kp + s + h - w, "C15 P = L - W");
+        assert!(calculate_p1(k) == PIN_P1[idx].1, "C15 P1(K')");
+        kani::cover!(k == 56403, "reach last row");
+        kani::cover!(k == 0, "reach K = 0");
+    }
+
+    #[kani::proof]
+    #[kani::unwind(479)]
+    pub(crate) fn lookups_refuse_large_k() {
+        let k: u32 = kani::any();
+        kani::assume(k > 56403);
+        let which: u8 = kani::any();
+        match which {
+            0 => { let _ = extended_source_block_symbols(k); }
+            1 => { let _ = systematic_index(k); }
+            2 => { let _ = num_ldpc_symbols(k); }
+            3 => { let _ = num_hdpc_symbols(k); }
+            4 => { let _ = num_lt_symbols(k); }
+            _ => { let _ = calculate_p1(k); }
+        }
+        assert!(false, "MARKER C15 look-up accepted K > 56403");
+    }
+}
